@@ -43,7 +43,7 @@ let kind_letter = function
   | KNum NBool -> "b" | KNum NDouble -> "d" | KNum NFloat -> "f" | KNum NInt64 -> "l" | KNum NInt32 -> "i"
   | KNum NInt16 -> "h" | KNum NInt8 -> "c" | KNum NPoint -> "P" | KNum NRect -> "R" | KChildCount -> "C"
 let rec flist_list = function LNil -> [] | LCons (f, t) -> f :: flist_list t
-let rec desc_filter (f : filter) =
+let rec desc_filter (f : qfilter) =
   match f with
   | FWhat (a, b) -> Printf.sprintf "W(%d,%d)" (int_of_n a) (int_of_n b)
   | FExists (n, i, tc) -> Printf.sprintf "E(%s,%d,%d)" (hex_of n) (int_of_n i) (int_of_n tc)
@@ -60,8 +60,8 @@ let rec desc_filter (f : filter) =
   | FMax (n, ks) -> Printf.sprintf "~(%d,[%s])" (int_of_n n) (String.concat " " (List.map desc_filter (flist_list ks)))
   | FXor ks -> Printf.sprintf "^([%s])" (String.concat " " (List.map desc_filter (flist_list ks)))
 
-(* ---------- the StringMatcher-backed operators: filled in by the pattern model when it is linked (see Smatch) *)
-let smatch : (n -> byte list -> byte list -> bool) ref = ref (fun _ _ _ -> false)
+(* ---------- the StringMatcher-backed operators: property C15's model (Pat/Translate.v + the ERE engine of Pat/Ere.v) *)
+let smatch : (n -> byte list -> byte list -> bool) ref = ref Flt_model.smatch_ere
 
 (* ---------- typed items (same letters as the C01 harness) *)
 let tc_of_letter t : n option =
@@ -157,7 +157,7 @@ let c_d2f (x : n) : n =
   let f = Int64.float_of_bits (int64_of_n x) in
   n_of_int ((Int32.to_int (Int32.bits_of_float f)) land 0xFFFFFFFF)
 
-let parse_expr : (byte list -> filter option) option ref = ref (Some (fun e -> Flt_model.parse_expr c_atof c_d2f e))
+let parse_expr : (byte list -> qfilter option) option ref = ref (Some (fun e -> Flt_model.parse_expr c_atof c_d2f e))
 
 let () =
   let lines = Ocommon.read_lines () in
@@ -168,7 +168,7 @@ let () =
       let body = String.sub line (p+1) (String.length line - p - 1) in
       let ops = List.filter (fun s -> s <> "") (String.split_on_char ';' body) in
       let regs = Array.make 8 empty_msg in
-      let stack : filter list ref = ref [] in
+      let stack : qfilter list ref = ref [] in
       let node : (n * byte list) option ref = ref None in
       let st = Buffer.create 64 in
       let reg s = let r = int_of_string s in if r < 0 || r > 7 then failwith "bad register" else r in
@@ -187,6 +187,13 @@ let () =
                    else apply (reg r) (OAdd (false, bytes_of_hex name, tc, v))
                | _ -> false)
           | ["am"; r; name; s2] -> apply (reg r) (OAdd (false, bytes_of_hex name, tc_message, IMsg regs.(reg s2)))
+          | ["nk"; r; cnt; what; fn] ->
+              let wrap inner =
+                let m0 = Msg (num what, FNil) in
+                let m1 = if fn = "-" then m0 else fst (step m0 (OAdd (false, bytes_of_hex "666e", tc_string, IStr (bytes_of_hex fn)))) in
+                fst (step m1 (OAdd (false, bytes_of_hex "6b6964", tc_message, IMsg inner))) in
+              let rec go k m = if k <= 0 then m else go (k-1) (wrap m) in
+              regs.(reg r) <- go (int_of_string cnt) regs.(reg r); true
           | ["n"; cnt; name] -> node := Some (num cnt, bytes_of_hex name); true
           | ["fw"; mn; mx] -> push (FWhat (num mn, num mx))
           | ["fe"; name; idx; tc] -> push (FExists (bytes_of_hex name, num idx, num tc))
